@@ -437,6 +437,14 @@ void RectangularCluster::computeBoundingRect(const vpsc::Rectangles& rs)
 {
     if (clusterIsFromFixedRectangle())
     {
+        // The child clusters still need their own bounds (they are used
+        // when generating non-overlap constraints among this cluster's
+        // children).
+        for (std::vector<Cluster*>::const_iterator i = clusters.begin();
+                i != clusters.end(); ++i)
+        {
+            (*i)->computeBoundingRect(rs);
+        }
         // For bounds, just use this shape's rectangle.
         bounds = *(rs[m_rectangle_index]);
     }
